@@ -43,6 +43,16 @@ func ParseCode(input string, opts ...parseCodeOpt) (tree parser.IExpressionConte
 		err = errors.Wrapf(ErrInputTooLong, "at index=%v token=%v", index, last)
 		errListener.errors = append(errListener.errors, err)
 	}
+	// "/*" 总是注释的开始: 未闭合的注释会被词法分析拆成相邻的 '/' 和 '*' 两个运算符(a /* x 变成 a / *x), 视为错误
+	stream.Fill()
+	for i, toks := 0, stream.GetAllTokens(); i+1 < len(toks); i++ {
+		a, b := toks[i], toks[i+1]
+		if a.GetTokenType() == parser.GoLexerDIV && b.GetTokenType() == parser.GoLexerSTAR && b.GetStart() == a.GetStop()+1 {
+			errListener.errors = append(errListener.errors, errors.Errorf("[SyntaxError] comment not terminated (position: %v)",
+				opt.start.Add(a.GetLine(), a.GetColumn())))
+			break
+		}
+	}
 	return tree, errListener.Err()
 }
 
